@@ -2,6 +2,7 @@
     weakened: this file stops compiling if a statement in Props/C19.v changes. *)
 From Coq Require Import List ZArith NArith Bool.
 From BV Require Import Model.Engine Proofs.Engine Props.C19.
+From BV Require Corr.EngineCase Corr.C19 Proofs.OracleC19.
 Import ListNotations.
 Local Open Scope N_scope.
 
@@ -66,6 +67,9 @@ Check C19_cancel_repeat_nothing : forall cs s f,
 
 Check C19_wf_invariant : forall cs s ev g,
   state_wf s = true -> state_wf (fst (process cs s ev g)) = true.
+
+Check C19_oracle_sound : forall c : Corr.EngineCase.case,
+  Corr.EngineCase.valid_case c = true -> Corr.EngineCase.corr_b c = true -> Corr.C19.prop_b c = true.
 
 (* the definitions the statements rest on, pinned by evaluation *)
 Check eq_refl : filter_match (FExchanges [1; 2]) 0 (mkInst 2 5 6 [] None None) = true.
